@@ -44,6 +44,33 @@ static void roundtrip(const char* name, MakeFn make, const std::vector<unsigned 
     }
 }
 
+// Float fields: NaN != NaN, so the restored BYTES are compared (sign, exponent, payload of NaNs included).
+static void float_roundtrip(const std::vector<unsigned char>& buf) {
+  std::vector<unsigned char> src(buf);
+  auto v = corpus::textrt::MakeFloatsView(src.data(), src.size());
+  if (!v.Ok()) { ++g_skipped; return; }
+  for (int base : {2, 10, 16}) for (int grouping = 0; grouping < 2; ++grouping) for (int multiline = 0; multiline < 2; ++multiline)
+    for (int comments = 0; comments < (multiline ? 2 : 1); ++comments) {
+      ::emboss::TextOutputOptions o = ::emboss::TextOutputOptions().WithNumericBase(base).WithDigitGrouping(grouping != 0).Multiline(multiline != 0).WithComments(comments != 0);
+      if (multiline) o = o.WithIndent("  ");
+      std::string text = ::emboss::WriteToString(v, o);
+      std::vector<unsigned char> dst(buf.size(), 0);
+      auto w = corpus::textrt::MakeFloatsView(dst.data(), dst.size());
+      bool ok = ::emboss::UpdateFromText(w, text);
+      ++g_trips;
+      if (!ok || dst != buf) {
+        ++g_fail;
+        if (g_fail <= 5) {
+          printf("FAIL Floats base=%d grouping=%d multiline=%d comments=%d update=%d buffer=", base, grouping, multiline, comments, ok);
+          for (unsigned char c : buf) printf("%02x", c);
+          printf(" restored=");
+          for (unsigned char c : dst) printf("%02x", c);
+          printf(" text=%s\n", text.c_str());
+        }
+      }
+    }
+}
+
 int main(int argc, char** argv) {
   rng_state = argc > 1 ? strtoull(argv[1], 0, 10) * 2654435761u + 88172645463325252ull : 88172645463325252ull;
   int n_random = argc > 2 ? atoi(argv[2]) : 200;
@@ -68,6 +95,18 @@ int main(int argc, char** argv) {
     b[0] = (unsigned char)(i % 6); b[1] = (unsigned char)((i / 6) % 4);
     // bytes no field covers are not restored by text: keep them zero so that the raw comparison below is meaningful too
     roundtrip("Shapes", mk_shapes, b, true);
+  }
+  {
+    const uint32_t e32[] = {0u, 0x80000000u, 0x3f800000u, 0xbf800000u, 0x7f800000u, 0xff800000u, 0x7fc00000u, 0xffc00000u, 0x7fc00001u, 0x7f800001u, 0xffbfffffu, 0x00000001u, 0x007fffffu, 0x00800000u, 0x7f7fffffu, 0x3eaaaaabu};
+    const uint64_t e64[] = {0ull, 0x8000000000000000ull, 0x3ff0000000000000ull, 0xbff0000000000000ull, 0x7ff0000000000000ull, 0xfff0000000000000ull, 0x7ff8000000000000ull, 0xfff8000000000001ull,
+                            0x7ff0000000000001ull, 0xfff7ffffffffffffull, 0x0000000000000001ull, 0x000fffffffffffffull, 0x0010000000000000ull, 0x7fefffffffffffffull, 0x3fd5555555555555ull, 0x400921fb54442d18ull};
+    for (int i = 0; i < 16 * 16 + n_random; ++i) {
+      std::vector<unsigned char> b(16, 0);
+      uint32_t a = i < 256 ? e32[i % 16] : (uint32_t)rnd(), c = i < 256 ? e32[(i / 16) % 16] : (uint32_t)rnd();
+      uint64_t d = i < 256 ? e64[(i * 5 + i / 16) % 16] : rnd();
+      memcpy(&b[0], &a, 4); memcpy(&b[4], &d, 8); memcpy(&b[12], &c, 4);
+      float_roundtrip(b);
+    }
   }
   auto mk_nesting = [](unsigned char* p, size_t n) { return corpus::textrt::MakeNestingView(p, n); };
   for (int i = 0; i < 16 + n_random; ++i) {
